@@ -136,6 +136,8 @@ func report(run *hx.Run, name string, res caseResult) {
 		run.CountN("op:"+k, n)
 	}
 	run.Count(fmt.Sprintf("faults:%d", res.faults))
+	run.CountN("storeLock-contended", res.contended)
+	run.CountN("storeLock-wait", res.lockWaits)
 	if res.abandoned != "" {
 		run.Count("abandoned:" + res.abandoned)
 	}
@@ -212,7 +214,33 @@ func TestC07(t *testing.T) {
 			handle("corpus/"+name, cfg, runCase(t, model, cfg, scripted(script[1:])))
 		}
 	}
-	n := run.Scale(1500, 30000)
+	// exhaustive small scope: every sequence of k symbolic operations after a prefix that parks the first data sync
+	if model != nil && run.Findings() == 0 {
+		alphabet := []string{"push", "pop", "alloc 0 5", "finnext", "tickd", "sync ok", "sync fail", "write p ok", "write p fail",
+			"write r ok", "write r fail", "cancel"}
+		depth := run.Scale(3, 4)
+		cfg := config{minInt: 100, retryInt: 30, blocks: 3, sector: 16, perBlock: 4}
+		prefix := []string{"push", "alloc 0 5", "finnext", "tickd"}
+		count := 0
+		var rec func(seq []string, d int)
+		rec = func(seq []string, d int) {
+			if run.Findings() >= 10 {
+				return
+			}
+			if d == 0 {
+				ops := append(append([]string{}, prefix...), seq...)
+				handle(fmt.Sprintf("exh/%d", count), cfg, runCase(t, model, cfg, scripted(ops)))
+				count++
+				return
+			}
+			for _, o := range alphabet {
+				rec(append(seq, o), d-1)
+			}
+		}
+		rec(nil, depth)
+		run.Extra("exhaustive_sequences", count)
+	}
+	n := run.Scale(6000, 90000)
 	for i := 0; i < n && run.Findings() < 10; i++ {
 		r := hx.NewRand(run.Seed, "C07", i)
 		cfg := genCfg(r)
